@@ -25,6 +25,29 @@ Proof. now apply path_eqb_eq. Qed.
 Lemma path_eqb_neq a b : a <> b -> path_eqb a b = false.
 Proof. intros Hn. destruct (path_eqb a b) eqn:E; [apply path_eqb_eq in E; contradiction | reflexivity]. Qed.
 
+(** * the 32-byte key encoding *)
+Lemma ser_be_length n : forall d, length (ser_be n d) = n.
+Proof. induction n as [|n IH]; intros d; cbn [ser_be]; [reflexivity|]. rewrite app_length, IH. cbn. lia. Qed.
+Lemma ser32_length d : length (ser32 d) = 32%nat.
+Proof. apply ser_be_length. Qed.
+
+Lemma be_val_snoc l b : be_val (l ++ [b]) = be_val l * 256 + b.
+Proof. unfold be_val. now rewrite fold_left_app. Qed.
+
+Lemma be_val_ser_be n : forall d, be_val (ser_be n d) = d mod 256 ^ N.of_nat n.
+Proof.
+  induction n as [|n IH]; intros d; cbn [ser_be].
+  - cbn. now rewrite N.mod_1_r.
+  - rewrite be_val_snoc, IH, Nat2N.inj_succ, N.pow_succ_r'.
+    assert (H256 : 256 ^ N.of_nat n <> 0) by (apply N.pow_nonzero; discriminate).
+    rewrite (N.mod_mul_r d 256 (256 ^ N.of_nat n)) by (discriminate || assumption). lia.
+Qed.
+
+(** every scalar below 2^256 — in particular every secp256k1 scalar in [1, N-1], with any number
+    of leading zero bytes — is stored on exactly 32 bytes and read back unchanged *)
+Lemma be_val_ser32 d : d < 2 ^ 256 -> be_val (ser32 d) = d.
+Proof. intros H. unfold ser32. rewrite be_val_ser_be. apply N.mod_small. exact H. Qed.
+
 Lemma proper_prefix_irrefl a : proper_prefix a a = false.
 Proof. induction a as [|x a IH]; cbn; [reflexivity|]. now rewrite IH, andb_false_r. Qed.
 
@@ -194,11 +217,11 @@ Section Laws.
 
   Definition wf_op (o : op) : Prop :=
     match o with
-    | OKey _ _ nk _ iv => length nk = 32%nat /\ length iv = 16%nat
+    | OKey _ _ _ _ iv => length iv = 16%nat
     | OExists _ => True
     | OExport _ _ _ iv => length iv = 16%nat
     | OImport _ _ _ _ iv => length iv = 16%nat
-    | OImportPriv _ _ k _ iv => length k = 32%nat /\ length iv = 16%nat
+    | OImportPriv _ _ _ _ iv => length iv = 16%nat
     end.
 
   Lemma Inv_nil : Inv [].
@@ -244,12 +267,12 @@ Section Laws.
       s' = write s p d /\ no_conflict s p = true /\ encrypt_key k pw salt iv = Ok d /\ length k = 32%nat /\
       wrote o x p pw /\ (is_import_on o p \/ lookup s p = None).
   Proof.
-    intros Hwf. destruct o as [name pw nk salt iv|name|name pw salt iv|name pw json salt iv|name pw k0 salt iv]; cbn [Model.step].
+    intros Hwf. destruct o as [name pw nk salt iv|name|name pw salt iv|name pw json salt iv|name pw k0 salt iv]; cbn [Model.step]; cbv zeta.
     - destruct (key_filename name) as [p|] eqn:Ep.
       + rewrite read_some. destruct (no_conflict s p) eqn:Ec; [|intros [= <- <-]; now left].
         destruct (lookup s p) as [d|] eqn:El; [intros [= <- <-]; now left|].
-        destruct (encrypt_key nk pw salt iv) as [d| |] eqn:Ee; intros [= <- <-]; try now left.
-        right. exists p, d, nk, pw, salt, iv. destruct Hwf as [Hk Hiv]. cbn. rewrite Ep. repeat split; auto.
+        destruct (encrypt_key (ser32 nk) pw salt iv) as [d| |] eqn:Ee; intros [= <- <-]; try now left.
+        right. exists p, d, (ser32 nk), pw, salt, iv. cbn. rewrite Ep. repeat split; auto using ser32_length.
       + cbn. intros [= <- <-]; now left.
     - destruct (read s (key_filename name)); intros [= <- <-]; now left.
     - destruct (svc_read s name pw) as [k| |]; intros [= <- <-]; now left.
@@ -260,8 +283,8 @@ Section Laws.
       right. exists p, d, k, pw, salt, iv. cbn. rewrite Ep. repeat split; auto. now apply decrypt_key_len in Ed.
     - destruct (svc_read s name pw) as [k1| |] eqn:Er; try (intros [= <- <-]; now left).
       apply svc_read_ok in Er as (p & d0 & Ep & Ec & El & Hd). rewrite Ep.
-      destruct (encrypt_key k0 pw salt iv) as [d| |] eqn:Ee; [destruct (bak_ok p)|idtac|idtac]; intros [= <- <-]; try now left.
-      right. exists p, d, k0, pw, salt, iv. destruct Hwf as [Hk Hiv]. cbn. rewrite Ep. repeat split; auto.
+      destruct (encrypt_key (ser32 k0) pw salt iv) as [d| |] eqn:Ee; [destruct (bak_ok p)|idtac|idtac]; intros [= <- <-]; try now left.
+      right. exists p, d, (ser32 k0), pw, salt, iv. cbn. rewrite Ep. repeat split; auto using ser32_length.
   Qed.
 
   Lemma Inv_step s o : Inv s -> wf_op o -> Inv (fst (step s o)).
@@ -318,12 +341,12 @@ Section Laws.
     wf_op (OKey name pw nk salt iv) -> step s (OKey name pw nk salt iv) = (s', OutKey k c) ->
     exists p d, key_filename name = Some p /\ lookup s' p = Some d /\ decrypt_key d pw = Ok k.
   Proof.
-    intros [Hk Hiv]. cbn [Model.step]. destruct (key_filename name) as [p|] eqn:Ep; [|cbn; discriminate].
+    intros Hiv. cbn [Model.step]. cbv zeta. destruct (key_filename name) as [p|] eqn:Ep; [|cbn; discriminate].
     rewrite read_some. destruct (no_conflict s p); [|discriminate].
     destruct (lookup s p) as [d|] eqn:El.
     - destruct (decrypt_key d pw) as [k'| |] eqn:Ed; cbn; try discriminate. intros [= <- <- <-]. eauto.
-    - destruct (encrypt_key nk pw salt iv) as [d| |] eqn:Ee; try discriminate. intros [= <- <- <-].
-      exists p, d. rewrite lookup_write_same. repeat split; auto. now apply (decrypt_encrypt nk pw salt iv).
+    - destruct (encrypt_key (ser32 nk) pw salt iv) as [d| |] eqn:Ee; try discriminate. intros [= <- <- <-].
+      exists p, d. rewrite lookup_write_same. repeat split; auto. apply (decrypt_encrypt (ser32 nk) pw salt iv); auto using ser32_length.
   Qed.
 
   Lemma same_password_same_key h1 name pw nk salt iv s2 k c h2 name' nk' salt' iv' :
@@ -358,13 +381,13 @@ Section Laws.
   Proof.
     intros Hwf Hs Hw.
     destruct o as [name pw0 nk salt iv|name|name pw0 salt iv|name pw0 json salt iv|name pw0 k0 salt iv];
-      cbn [Model.step] in Hs; cbn in Hw; try contradiction.
+      cbn [Model.step] in Hs; cbv zeta in Hs; cbn in Hw; try contradiction.
     - destruct x as [k0 [|]| | | | |]; try contradiction. destruct Hw as (Ep & ->).
       rewrite Ep, read_some in Hs. destruct (no_conflict s p); [|discriminate].
       destruct (lookup s p) as [d|] eqn:El.
       + destruct (decrypt_key d pw); cbn in Hs; discriminate.
-      + destruct (encrypt_key nk pw salt iv) as [d| |] eqn:Ee; try discriminate.
-        injection Hs as <- _. exists d, nk, salt, iv. rewrite lookup_write_same. destruct Hwf. auto.
+      + destruct (encrypt_key (ser32 nk) pw salt iv) as [d| |] eqn:Ee; try discriminate.
+        injection Hs as <- _. exists d, (ser32 nk), salt, iv. rewrite lookup_write_same. auto using ser32_length.
     - destruct x; try contradiction. destruct Hw as (Ep & ->).
       destruct (svc_read s name pw) as [k2| |] eqn:Er; try discriminate. rewrite Ep in Hs.
       destruct (decrypt_key json pw) as [k3| |] eqn:Ed; try discriminate.
@@ -373,9 +396,9 @@ Section Laws.
       injection Hs as <-. exists d, k3, salt, iv. rewrite lookup_write_same. apply decrypt_key_len in Ed. auto.
     - destruct x; try contradiction. destruct Hw as (Ep & ->).
       destruct (svc_read s name pw) as [k2| |] eqn:Er; try discriminate. rewrite Ep in Hs.
-      destruct (encrypt_key k0 pw salt iv) as [d| |] eqn:Ee; try discriminate.
+      destruct (encrypt_key (ser32 k0) pw salt iv) as [d| |] eqn:Ee; try discriminate.
       destruct (bak_ok p); [|discriminate].
-      injection Hs as <-. exists d, k0, salt, iv. rewrite lookup_write_same. destruct Hwf. auto.
+      injection Hs as <-. exists d, (ser32 k0), salt, iv. rewrite lookup_write_same. auto using ser32_length.
   Qed.
 
   Lemma wrong_password h1 o x s2 p pw h2 name' pw' nk' salt' iv' :
@@ -408,6 +431,25 @@ Section Laws.
     pose proof (file_stable_run h2 s2 p d Hh2 Hni Hl) as Hl2.
     unfold Model.svc_read. rewrite Ep, read_some, (no_conflict_present _ p d Hpf Hl2), Hl2.
     exact (decrypt_wrong k1 pw salt iv d pw' He Hne).
+  Qed.
+
+  (** ImportPrivateKey of ANY scalar, then Key with the same password: the 32-byte encoding of
+      that scalar comes back (so the scalar itself, [be_val_ser32]) *)
+  Lemma import_priv_roundtrip h name pw d salt iv s' nk' salt' iv' :
+    Forall wf_op h -> wf_op (OImportPriv name pw d salt iv) ->
+    step (fst (run [] h)) (OImportPriv name pw d salt iv) = (s', OutDone) ->
+    step s' (OKey name pw nk' salt' iv') = (s', OutKey (ser32 d) false).
+  Proof.
+    intros Hh Hwf Hs.
+    pose proof (Inv_run h [] Inv_nil Hh) as HI1.
+    pose proof (Inv_step _ _ HI1 Hwf) as HI2. rewrite Hs in HI2. cbn in HI2.
+    cbn [Model.step] in Hs. cbv zeta in Hs.
+    destruct (svc_read (fst (run [] h)) name pw) as [k1| |] eqn:Er; try discriminate.
+    apply svc_read_ok in Er as (p & d0 & Ep & Ec & El & Hd). rewrite Ep in Hs.
+    destruct (encrypt_key (ser32 d) pw salt iv) as [b| |] eqn:Ee; try discriminate.
+    destruct (bak_ok p); [|discriminate]. injection Hs as <-.
+    rewrite (key_present _ name pw nk' salt' iv' p b (proj1 HI2) Ep (lookup_write_same _ _ _)).
+    now rewrite (decrypt_encrypt (ser32 d) pw salt iv b Ee (ser32_length d)).
   Qed.
 
   (** export, then import into any slot that holds a key under the same password *)
@@ -512,19 +554,19 @@ Section HmacShape.
   Hypothesis h_std : forall pw salt, exists dk, hkdf pw salt P = Some dk /\ length dk = 32%nat.
 
   Lemma hmac_wrong_password_accepted name nk salt iv nk' salt' iv' :
-    key_filename dirc name <> None -> length nk = 32%nat -> length iv = 16%nat ->
+    key_filename dirc name <> None -> length iv = 16%nat ->
     exists s1,
-      step hkdf ctr sha3 keccak P ver dirc [] (OKey name [] nk salt iv) = (s1, OutKey nk true) /\
-      step hkdf ctr sha3 keccak P ver dirc s1 (OKey name [0] nk' salt' iv') = (s1, OutKey nk false).
+      step hkdf ctr sha3 keccak P ver dirc [] (OKey name [] nk salt iv) = (s1, OutKey (ser32 nk) true) /\
+      step hkdf ctr sha3 keccak P ver dirc s1 (OKey name [0] nk' salt' iv') = (s1, OutKey (ser32 nk) false).
   Proof.
-    intros Hn Hk Hiv. destruct (key_filename dirc name) as [p|] eqn:Ep; [|congruence].
-    destruct (encrypt_key_ok hkdf ctr keccak P ver h_std nk [] salt iv Hiv) as [d Ee].
+    intros Hn Hiv. destruct (key_filename dirc name) as [p|] eqn:Ep; [|congruence].
+    destruct (encrypt_key_ok hkdf ctr keccak P ver h_std (ser32 nk) [] salt iv Hiv) as [d Ee].
     exists (write [] p d). split.
-    - cbn [step]. rewrite Ep. cbn [read existsb lookup]. now rewrite Ee.
+    - cbn [step]. cbv zeta. rewrite Ep. cbn [read existsb lookup]. now rewrite Ee.
     - assert (Hpf : prefix_free (write [] p d)).
       { apply prefix_free_write; [intros q e q' e' [] | reflexivity]. }
       rewrite (key_present hkdf ctr sha3 keccak P ver dirc _ name [0] nk' salt' iv' p d Hpf Ep (lookup_write_same _ _ _)).
       rewrite (decrypt_key_ext hkdf ctr sha3 keccak ver d [0] []) by reflexivity.
-      now rewrite (decrypt_encrypt hkdf ctr sha3 keccak P ver ctr_inv nk [] salt iv d Ee Hk).
+      now rewrite (decrypt_encrypt hkdf ctr sha3 keccak P ver ctr_inv (ser32 nk) [] salt iv d Ee (ser32_length nk)).
   Qed.
 End HmacShape.
